@@ -237,7 +237,7 @@ def server_flight_sequences(ctx, maxlen, part, nparts, psk, leaf="ed25519"):
     from vlib import endpoints as E, tlsbench as B, reftls as L
 
     other_key = E.load_key("client.key")  # same key type as the leaf (Ed25519), different key
-    alphabet = ["EE", "CR", "Cert", "CertEmpty", "CV", "CVbad", "Fin"] if not psk else ["EE", "Cert", "CertEmpty", "CV", "Fin"]
+    alphabet = ["EE", "CR", "Cert", "CertEmpty", "CV", "CVbad", "Fin", "FinBad"] if not psk else ["EE", "Cert", "CertEmpty", "CV", "Fin", "FinBad"]
     legal_list = [("EE", "Fin")] if psk is True else [("EE", "Cert", "CV", "Fin"), ("EE", "CR", "Cert", "CV", "Fin")]
     ticket = None
     psk_secret = {}
@@ -276,6 +276,8 @@ def server_flight_sequences(ctx, maxlen, part, nparts, psk, leaf="ed25519"):
     for seq in with_early_data_variants(multiset_sequences(alphabet, maxlen), enabled=psk is not True):
         if "CV" in seq and "CVbad" in seq:
             continue
+        if "FinBad" in seq[:-1]:
+            continue
         i += 1
         if i % nparts != part:
             continue
@@ -307,6 +309,10 @@ def server_flight_sequences(ctx, maxlen, part, nparts, psk, leaf="ed25519"):
                     m = s.certificate_verify()
                 elif sym == "CVbad":
                     m = s.certificate_verify(private_key=other_key, algorithm=0x0807)
+                elif sym == "FinBad":
+                    # a Finished whose MAC does not verify (last byte flipped)
+                    m = s.finished()
+                    m = m[:-1] + bytes([m[-1] ^ 0x01])
                 else:
                     m = s.finished()
                 one_rtt_before = [x for x in c.keys if x[1] == "ONE_RTT"]
@@ -356,11 +362,13 @@ def client_flight_sequences(ctx, maxlen, part, nparts, request):
     from vlib import endpoints as E, tlsbench as B
 
     other_key = E.load_key("leaf_ed25519.key")  # same key type as the client certificate (Ed25519), different key
-    alphabet = ["Cert", "CertEmpty", "CV", "CVbad", "Fin"]
+    alphabet = ["Cert", "CertEmpty", "CV", "CVbad", "Fin", "FinBad"]
     legal_list = [("Cert", "CV", "Fin"), ("CertEmpty", "Fin")] if request else [("Fin",)]
     i = 0
     for seq in multiset_sequences(alphabet, maxlen):
         if "CV" in seq and "CVbad" in seq:
+            continue
+        if "FinBad" in seq[:-1]:
             continue
         i += 1
         if i % nparts != part:
@@ -381,13 +389,19 @@ def client_flight_sequences(ctx, maxlen, part, nparts, request):
                     m = rc.certificate_verify()
                 elif sym == "CVbad":
                     m = rc.certificate_verify(private_key=other_key, algorithm=0x0807)
+                elif sym == "FinBad":
+                    m = rc.finished()
+                    m = m[:-1] + bytes([m[-1] ^ 0x01])
                 else:
                     m = rc.finished()
                 before = [x for x in sv.keys if x == ("DECRYPT", "ONE_RTT")]
+                state_before, keys_before = sv.state, list(sv.keys)
                 try:
                     sv.feed(m)
                 except T.Alert as a:
                     err = a
+                    if sv.state != state_before or sv.keys != keys_before:
+                        ctx.violation("refused-message-changed-state", "%s (client flight %s) was refused with %r but moved the server from %s to %s (keys %r)" % (sym, list(seq[: k + 1]), a, state_before, sv.state, sv.keys[len(keys_before) :]), {"kind": "cseq", "request": request, "seq": list(seq)})
                     break
                 except Exception as e:
                     err = e
